@@ -412,6 +412,22 @@ def reload_worker(args):
                     res.violation('reload|differs', 'the text %r loaded into a job that had run %r: commands/output %r, on a fresh job %r (%s output binding)'
                                   % (second, first, (got[1], got[0][:4], got[2]), (want[1], want[0][:4], want[2]), 'production' if production else 'recording'),
                                   inputs={'first': first, 'second': second}, replayed=True)
+    # an embedding that binds no output sink at all: a run that dies still only logs, execute() does not raise
+    for first in RELOAD_FIRST[:3]:
+        res.nontrivial += 1
+        net = world.configure(output=lambda n: None)
+        world.uninstall_real_mode()
+        try:
+            job = ScriptJob.from_string(first)
+            try:
+                exec_job(job, net)
+                job.load_string('on all')
+                exec_job(job, net)
+            except Exception as ex:
+                res.violation('reload|execute raises', 'ScriptJob.execute() raises %s: %s when no output sink is bound\n  script: %s' % (type(ex).__name__, ex, first),
+                              inputs={'script': first}, replayed=True)
+        finally:
+            world.install_real_mode()
     res.sample({'first': RELOAD_FIRST, 'second': RELOAD_SECOND})
     res.functions = world.functions_seen()
     return res
